@@ -441,7 +441,7 @@ func (w *world) cappedCase(rounds int) {
 		}
 		w.fund("R", a, amt)
 	}
-	nLP := lib.MaxLiquidityProviders - 1 - w.r.Intn(3)
+	nLP := lib.MaxLiquidityProviders - 2 - w.r.Intn(3) // table of 4998..5000 entries with the two incumbents below
 	pts := []*lib.PoolPoints{{Address: dead, Points: uint64(1 + w.r.Intn(1_000_000))}}
 	tot := pts[0].Points
 	base := uint64(1 + w.r.Intn(5000))
@@ -469,6 +469,10 @@ func (w *world) cappedCase(rounds int) {
 		a[0] = 0xE0
 		a[19] = byte(k)
 		return a
+	}
+	// the newcomers of the local rounds need funds on this chain
+	for k := 0; k < 12; k++ {
+		w.fund("R", newAddr(100+k), uint64(1<<40))
 	}
 	nn := 0
 	for r := 0; r < rounds; r++ {
@@ -503,18 +507,53 @@ func (w *world) cappedCase(rounds int) {
 					b.Deposits = append(b.Deposits, &lib.DexLiquidityDeposit{Amount: amt/2 + 1, Address: a, OrderId: w.freshID()})
 				}
 			}
-			_, before, after := w.dexbatch("R", 2, false, b)
+			w.cappedBatch(b)
 			w.o.Count("capped:remote-deposit-batch")
-			w.cappedCoverage(before, after, b.Deposits)
 		} else {
-			// local side: users deposit, the batch locks, the counter chain answers with the matching hash
-			for i := 1 + w.r.Intn(4); i > 0; i-- {
-				w.deposit("R", 2, w.addr(), uint64(1+w.r.Int63n(1<<uint(10+w.r.Intn(30)))), w.freshID())
+			// local side (this chain is the origin): providers-to-be deposit here, often in several pieces; the
+			// batch locks; the counter chain answers with the matching receipt hash; handleBatchDeposit(local=true)
+			// then admits, evicts for, or rejects-and-refunds each newcomer against the full table
+			if lb, _ := w.envs["R"].SM.GetDexBatch(2, true); lb != nil && !lb.IsEmpty() {
+				// flush an outstanding locked batch first
+				w.envs["R"].SM.ResetCaches()
+				b := &lib.DexBatch{Committee: 1, PoolSize: uint64(1_000_000 + w.r.Int63n(1<<40)), ReceiptHash: lb.Hash()}
+				for range lb.Orders {
+					b.Receipts = append(b.Receipts, 0)
+				}
+				w.cappedBatch(b)
 			}
-			_, before, after := w.dexbatch("R", 2, false, &lib.DexBatch{Committee: 1, PoolSize: uint64(1_000_000 + w.r.Int63n(1<<40))})
-			w.o.Count("capped:local-deposit-batch")
-			if lb := before.Locked[2]; lb != nil {
-				w.cappedCoverage(before, after, lb.Deposits)
+			w.envs["R"].SM.ResetCaches()
+			for i := 2 + w.r.Intn(4); i > 0; i-- {
+				a := newAddr(100 + w.r.Intn(12))
+				if w.r.Intn(5) == 0 {
+					a = w.addr()
+				}
+				var amt uint64
+				switch w.r.Intn(3) {
+				case 0:
+					amt = uint64(1 + w.r.Intn(2000)) // worth no points against this pool: rejected when the table is full
+				case 1:
+					amt = uint64(1 + w.r.Int63n(1<<38)) // enough to out-rank the lowest holder
+				default:
+					amt = uint64(1 + w.r.Int63n(1<<uint(10+w.r.Intn(28))))
+				}
+				w.deposit("R", 2, a, amt, w.freshID())
+				for k := w.r.Intn(3); k > 0; k-- { // the same provider again, in the same batch
+					w.deposit("R", 2, a, amt/uint64(1+w.r.Intn(3))+1, w.freshID())
+				}
+			}
+			w.dexbatch("R", 2, false, &lib.DexBatch{Committee: 1, PoolSize: uint64(1_000_000 + w.r.Int63n(1<<40))}) // locks the batch
+			lb, _ := w.envs["R"].SM.GetDexBatch(2, true)
+			w.envs["R"].SM.ResetCaches()
+			if lb != nil && !lb.IsEmpty() {
+				b := &lib.DexBatch{Committee: 1, PoolSize: uint64(1_000_000 + w.r.Int63n(1<<40)), ReceiptHash: lb.Hash()}
+				w.cappedBatch(b) // the batch that was outstanding is answered; ours (if it waited in next) locks now
+				w.o.Count("capped:local-deposit-batch")
+				if lb2, _ := w.envs["R"].SM.GetDexBatch(2, true); lb2 != nil && len(lb2.Deposits) > 0 {
+					w.envs["R"].SM.ResetCaches()
+					w.cappedBatch(&lib.DexBatch{Committee: 1, PoolSize: uint64(1_000_000 + w.r.Int63n(1<<40)), ReceiptHash: lb2.Hash()})
+				}
+				w.envs["R"].SM.ResetCaches()
 			}
 		}
 		if w.r.Intn(3) == 0 {
@@ -553,6 +592,57 @@ func (w *world) cappedCoverage(before, after *Snapshot, deps []*lib.DexLiquidity
 			w.o.Count("capped:newcomer-admitted")
 		case !has(pb, d.Address) && !has(pa, d.Address):
 			w.o.Count("capped:newcomer-rejected")
+		}
+	}
+}
+
+// cappedBatch runs one certificate batch and classifies what it did to remote and to local (locked) deposits.
+func (w *world) cappedBatch(b *lib.DexBatch) {
+	_, before, after := w.dexbatch("R", 2, false, b)
+	if b != nil && len(b.Deposits) > 0 {
+		w.cappedCoverage(before, after, b.Deposits)
+	}
+	if lb := before.Locked[2]; lb != nil && len(lb.Deposits) > 0 {
+		w.cappedCoverage(before, after, lb.Deposits)
+		w.cappedLocalCoverage(before, after, lb.Deposits)
+	}
+}
+
+// cappedLocalCoverage: the origin-chain scenario a refund bug would hide in — the table is full, a provider who is
+// not in it deposited in two or more pieces in one locked batch, and was rejected (so the whole aggregated amount
+// must come back from the holding pool).
+func (w *world) cappedLocalCoverage(before, after *Snapshot, deps []*lib.DexLiquidityDeposit) {
+	pb, pa := before.pool(2+liquidityAdd), after.pool(2+liquidityAdd)
+	has := func(p *fsm.Pool, a []byte) bool {
+		for _, x := range p.Points {
+			if string(x.Address) == string(a) {
+				return true
+			}
+		}
+		return false
+	}
+	if before.Locked[2] == nil || after.Locked[2] != nil && len(after.Locked[2].Deposits) == len(deps) && after.Locked[2].LockedHeight == before.Locked[2].LockedHeight {
+		return // receipts were not applied
+	}
+	w.o.Count("capped:local-receipts-applied")
+	pieces := map[string]int{}
+	for _, d := range deps {
+		if d.Amount != 0 {
+			pieces[string(d.Address)]++
+		}
+	}
+	for a, n := range pieces {
+		if has(pb, []byte(a)) {
+			continue
+		}
+		full := len(pa.Points) >= lib.MaxLiquidityProviders
+		switch {
+		case !has(pa, []byte(a)) && n >= 2 && full:
+			w.o.Count("capped:local-split-newcomer-rejected-at-full-table")
+		case !has(pa, []byte(a)) && full:
+			w.o.Count("capped:local-single-newcomer-rejected-at-full-table")
+		case has(pa, []byte(a)) && n >= 2:
+			w.o.Count("capped:local-split-newcomer-admitted")
 		}
 	}
 }
